@@ -1540,9 +1540,11 @@ pub fn do_op(api: &dyn Api, client: usize, idx: usize, op: &Op) {
             let a = api.clone_box();
             let (what, v) = (*what, *v);
             let f: Box<dyn FnOnce()> = Box::new(move || {
-                if what >= 3 && CUR_LOOKUP_KEY.with(|c| c.get()).map_or(true, |held| held % 256 == (v as u64) % 256) {
-                    // same shard as the reference being held (a plan reshaped by the minimiser):
-                    // that would be the caller's own deadlock - skip
+                if what >= 3 && CUR_LOOKUP_KEY.with(|c| c.get()).map_or(true, |held| held % 256 >= (v as u64) % 256) {
+                    // An application that takes a second shard lock while it holds a reference
+                    // must order its locks, or two of its threads deadlock each other (A then B
+                    // against B then A) without any fault of the library: the clients only ever go
+                    // from a lower shard to a higher one.  (Same shard: the caller's own deadlock.)
                     return;
                 }
                 let inner = match what {
